@@ -66,7 +66,7 @@ REQUIRED = ["children_clean", "op:stage-compare", "seeds:distinct-hash-probes", 
 
 QUICK_SEEDS = [0, 1, 2, 3, 4, 5]
 THOROUGH_SEEDS = list(range(32))
-KIND_MIX = [("refine", 3), ("filter", 2), ("hmmer", 1), ("world", 5), ("layout", 4)]
+KIND_MIX = [("refine", 6), ("filter", 8), ("hmmer", 2), ("world", 5), ("layout", 4)]   # hit-level inputs are cheap
 CHILD_TIMEOUT_S = {"quick": 120, "thorough": 300}
 ORDERS = 3
 HERE = os.path.dirname(os.path.dirname(os.path.dirname(os.path.abspath(__file__))))
@@ -654,11 +654,11 @@ def run_batch(ctx, cases, children, parallel):
 def run(ctx):
     children = children_for(ctx.tier)
     if ctx.tier == "quick":
-        cases = gen_cases(ctx, ctx.quota(72, 72))
+        cases = gen_cases(ctx, ctx.quota(125, 125))
         clean = run_batch(ctx, cases, children, parallel=4)
     else:
         # one batch per worker, its 34 children run one after the other (16 workers keep 16 cores busy)
-        cases = gen_cases(ctx, ctx.quota(72, 1280))
+        cases = gen_cases(ctx, ctx.quota(125, 2000))
         clean = run_batch(ctx, cases, children, parallel=1)
     if clean:
         ctx.count("children_clean")
